@@ -339,7 +339,7 @@ def r4_no_foreign_writes(ctx, P):
     for rx in NONWRITING_ROOTS:
         roots += [i["id"] for i in P.find_re(rx) if i["id"] in P.raw_bodies]
     ctx.floor(R, "non-reallocating arena operations (roots)", len(roots), 25)
-    parents = P.reach_fns(roots)
+    parents = P.reach_fns(roots, opaque_traits=("alloc::Allocator",))
     seen_fns = {st[0] for st in parents}
     n_writes = 0
     hdr_ok = 0
